@@ -13,6 +13,9 @@ import (
 // registry), on 2 and 3 threads, all interleavings under the controlled scheduler; plus the
 // free-running -race pass over the same bodies.
 func c15Concurrent(r *ev.Run) int64 {
+	if !requireScheduler() {
+		return 0
+	}
 	c14Init()
 	ref := map[string]string{}
 	fs := []c14Op{{"F", 0}, {"F", 1}, {"F", 2}}
